@@ -179,8 +179,13 @@ type ModShard struct {
 }
 
 func (m *ModShard) FindForKey(key interface{}) (int, error) {
-	h := hack.Abs(NumValue(key))
-	return int(h % int64(m.ShardNum)), nil
+	// the absolute value of math.MinInt64 does not fit in an int64, so take it as uint64
+	h := NumValue(key)
+	abs := uint64(h)
+	if h < 0 {
+		abs = -abs
+	}
+	return int(abs % uint64(m.ShardNum)), nil
 }
 
 type NumRangeShard struct {
